@@ -98,6 +98,16 @@ class Metamorphic(Suite):
                     else:
                         c.update(perm_seed=rng.randrange(10**6))
                     out.append(c)
+                # a compact neuron with some very short compartments, carried far from the origin by a translation that is exact in
+                # float32 (atlas coordinates): every inter-node offset is bit-identical, so nothing may change at all
+                tf = dict(t); tf["xyz"] = [list(p) for p in t["xyz"]]
+                for i in range(1, tf["n"]):
+                    if rng.random() < 0.4:
+                        q = list(tf["xyz"][tf["pids"][i]]); q[rng.randrange(3)] += rng.choice([-1, 1]) * rng.choice([1 / 16, 1 / 8, 1 / 32])
+                        if tuple(q) not in {tuple(p) for p in tf["xyz"]}:
+                            tf["xyz"][i] = q
+                out.append({"class": f"far/{shape}", "tree": tf, "kind": "far",
+                            "shift": [rng.choice([8192.0, -12288.0, 4096.0, 10240.0]) for _ in range(3)]})
         return out
 
     def _radii(self, t):
@@ -121,6 +131,12 @@ class Metamorphic(Suite):
             warnings.simplefilter("ignore")
             if kind == "rigid":
                 t1 = Translate(*case["shift"])(Rotate(np.array(case["axis"]), case["theta"], center=case["center"])(t0))
+                f1 = features(t1, rs)
+            elif kind == "far":
+                t1 = Translate(*case["shift"])(t0)
+                want = (np.array(case["tree"]["xyz"], dtype=np.float64) + np.array(case["shift"])).astype(np.float32)
+                if not np.array_equal(t1.xyz(), want) or not np.array_equal((want.astype(np.float64) - np.array(case["shift"])).astype(np.float32), t0.xyz()):
+                    return {"skip": "translation not exact in float32"}
                 f1 = features(t1, rs)
             elif kind == "scale":
                 s = case["s"]
@@ -154,10 +170,12 @@ class Metamorphic(Suite):
     def oracle(self, case, res):
         if "exc" in res:
             return [("invariance-raises", f"{case['kind']}: {res['exc']}: {res.get('msg')}")]
+        if "skip" in res:
+            return []
         a, b = res["before"], res["after"]
         s = case.get("s", 1.0)
         out = []
-        tol = 3e-4
+        tol = 3e-4 if case["kind"] != "far" else 2e-5
 
         def close(x, y, scale=1.0):
             if isinstance(x, list):
@@ -172,7 +190,8 @@ class Metamorphic(Suite):
                 if len(a[key]) == len(b[key]) and all(abs(u - v) <= 0.05 for u, v in zip(a[key], b[key])):
                     continue
             if not close(a[key], b[key], s ** power):
-                what = {"rigid": "rotating/translating the neuron", "relabel": "renumbering the nodes", "scale": f"scaling by {s}"}[kind]
+                what = {"rigid": "rotating/translating the neuron", "relabel": "renumbering the nodes", "scale": f"scaling by {s}",
+                        "far": f"translating the neuron by {case.get('shift')} (exactly representable)"}[kind]
                 exp = "unchanged" if power == 0 or kind != "scale" else f"×{s}^{power}"
                 out.append((f"{kind}-changes-{key}", f"{what} turned {key} {str(a[key])[:120]} into {str(b[key])[:120]} (expected {exp}); pids={case['tree']['pids']}"))
         for key in ("counts", "branch_order", "lm_branch_order", "terminal_degree", "sholl"):
@@ -181,7 +200,7 @@ class Metamorphic(Suite):
         return out[:3]
 
     def nontrivial(self, case, res):
-        return case["tree"]["n"] >= 5
+        return case["tree"]["n"] >= 5 and "skip" not in res
 
 
 SUITES = [Metamorphic()]
